@@ -6,7 +6,7 @@ from vf import H, C, M
 F = "ohkami/src/router/final.rs"
 U = "ohkami/src/router/util.rs"
 P = "ohkami/src/request/path.rs"
-MODULES = [M(F, "harness/C01/final.rs"), M(U, "harness/C01/util.rs"), M(P, "harness/C01/path.rs")]
+MODULES = [M(F, "harness/C01/final.rs"), M(U, "harness/C01/util.rs"), M(P, "harness/C01/path.rs"), M("ohkami/src/router/base.rs", "harness/C01/base.rs")]
 CONTRACTS = [
     C(U, "pub(super) fn split_next_section(", [
         "kani::ensures(|r: &(&[u8], &[u8])| __verif_c01::split_post(path, r.0, r.1))",
@@ -36,6 +36,12 @@ HARNESSES = [
         ("c01_search_tree_two_params", "tree '' -> [:a -> ['/x', :b]]: static preferred at each position, both params are the segments at their positions"),
     ]
 ]
+def stub_fmt_note():
+    return "alloc::fmt::format executed (merge_statics uses format!)"
+
+
+# c01_finalize_orders_children / c01_finalize_compresses_static_chain (harness/C01/final.rs) are written but NOT registered:
+# no answer within 15 min (sort_by + Cow<str> comparison + format! in merge_statics under CBMC).
 TRUSTED = ["reference expectations per tree in harness/C01/final.rs (segment-wise matching transcribed from the property statement)"]
-ASSUMPTIONS = ["children order as the documented precondition of Node::search demands (statics in reverse alphabetical order, param last); From<base::Node> (compression, sort) and registration are not under contract",
+ASSUMPTIONS = ["children order as the documented precondition of Node::search demands (statics in reverse alphabetical order, param last); From<base::Node> (compression, child sort), registration and merge of nested Ohkamis are not under a discharged contract (harnesses written, no answer in 15 min)",
                "percent-encoded request bytes are compared raw by the router (decoding is C07)"]
